@@ -68,7 +68,7 @@ func judge(c *c20Case, o c20Outcome) (map[string]any, string) {
 			text = o.Stdout
 		}
 		if namesInput(c, text) == "" {
-			return map[string]any{"pred": "reject-without-naming-input", "prog": c.Prog, "type": c.Type, "msg": msgHead(strings.TrimPrefix(strings.TrimPrefix(strings.TrimSpace(errorPart(text)), "ERROR>>> "), "Error: "))},
+			return map[string]any{"pred": "reject-without-naming-input", "prog": c.Prog, "type": c.Type, "device_answer": len(c.HTTP) > 0, "msg": msgHead(strings.TrimPrefix(strings.TrimPrefix(strings.TrimSpace(errorPart(text)), "ERROR>>> "), "Error: "))},
 				"rejected (exit status 1), but the message names neither the file nor a line, command or object of the input: " + trunc(strings.TrimSpace(text), 300)
 		}
 	}
@@ -384,6 +384,7 @@ func runC20(ctx *Ctx) *Result {
 	wrapperCases(func(c *c20Case) { wrappers = append(wrappers, c) })
 	simCases(func(c *c20Case) { wrappers = append(wrappers, c) })
 	missingApproveCases(func(c *c20Case) { wrappers = append(wrappers, c) })
+	httpCases(func(c *c20Case) { wrappers = append(wrappers, c) })
 
 	// pass 1: size of the family (cases are built lazily; nothing is kept)
 	family := 0
@@ -432,7 +433,7 @@ func runC20(ctx *Ctx) *Result {
 			}
 		})
 		for _, c := range wrappers {
-			if c.Prog == "do-approve" {
+			if c.Prog != "missing-approve" {
 				push(c)
 			}
 		}
